@@ -120,6 +120,7 @@ Inductive phase :=
 | WAcq (w : nat)                   (* wrapper of class w: with _BOOTSTRAP_LOCK *)
 | WRemove (w : nat)                (* remove the wrapper if still installed *)
 | WRel (w : nat)
+| WNext (w : nat)                  (* look __new__ up: the nearest wrapper still installed below class w *)
 | ObsInst                          (* spec_cls.__new__ / __init__: the instance is built *)
 | Done.
 
@@ -134,9 +135,13 @@ Record thread := mkT {
                          t_cur+1 .. t_tgt wait in `Enter` for their parent *)
   t_ph : phase;
   t_seen : option meta;
-  t_obs : option obs }.
+  t_obs : option obs;
+  t_w : nat }.        (* the class whose __new__ wrapper is running *)
 
-Definition start (inst via : bool) (tgt : nat) : thread := mkT inst via tgt tgt Test None None.
+(* a metadata read starts with the placeholder lookup; an instantiation starts with
+   the lookup of __new__ (type.__call__), which finds a wrapper or not *)
+Definition start (inst via : bool) (tgt : nat) : thread :=
+  mkT inst via tgt tgt (if inst then WNext (S tgt) else Test) None None 0.
 
 Record state := mkS { classes : list cls; lock : option (nat * nat); threads : list thread }.
 
@@ -146,26 +151,27 @@ Inductive ev :=
 | ETest (c : nat) (fields hit : bool) | EAcq (depth : nat) | ERecheck (c : nat) (hit : bool)
 | EEnter (c : nat) | EInherit (c : nat) | ERead (c n : nat) (decl : bool) | EConsume (c n : nat)
 | EPublish (c : nat) | EPublishF (c : nat) | ERegister (c : nat) | ERel (depth : nat)
-| EReread (c : nat) | EBodyEnd (c : nat) | EWCheck (ok : bool) | EWRemove (w : nat) (did : bool) | EObs.
+| EReread (c : nat) | EBodyEnd (c : nat) | EWCheck (ok : bool) | EWRemove (w : nat) (did : bool)
+| EWNext (w : nat) (found : option nat) | EObs.
 
 Definition set_ph (t : thread) (p : phase) : thread :=
-  mkT (t_inst t) (t_via t) (t_tgt t) (t_cur t) p (t_seen t) (t_obs t).
+  mkT (t_inst t) (t_via t) (t_tgt t) (t_cur t) p (t_seen t) (t_obs t) (t_w t).
 Definition set_cur_ph (t : thread) (c : nat) (p : phase) : thread :=
-  mkT (t_inst t) (t_via t) (t_tgt t) c p (t_seen t) (t_obs t).
-Definition set_seen_ph (t : thread) (m : option meta) (p : phase) : thread :=
-  mkT (t_inst t) (t_via t) (t_tgt t) (t_cur t) p m (t_obs t).
+  mkT (t_inst t) (t_via t) (t_tgt t) c p (t_seen t) (t_obs t) (t_w t).
+Definition set_w_ph (t : thread) (w : nat) (p : phase) : thread :=
+  mkT (t_inst t) (t_via t) (t_tgt t) (t_cur t) p (t_seen t) (t_obs t) w.
 Definition finish (t : thread) (o : obs) : thread :=
-  mkT (t_inst t) (t_via t) (t_tgt t) (t_cur t) Done (t_seen t) (Some o).
+  mkT (t_inst t) (t_via t) (t_tgt t) (t_cur t) Done (t_seen t) (Some o) (t_w t).
 
 (* the placeholder lookup for class t_cur has returned (value in `seen`):
    continue in the caller — the waiting bootstrap of the child, or the use *)
 Definition ret (t : thread) (m : option meta) : thread :=
   if Nat.ltb (t_cur t) (t_tgt t) then
-    mkT (t_inst t) (t_via t) (t_tgt t) (S (t_cur t)) Inherit m (t_obs t)
+    mkT (t_inst t) (t_via t) (t_tgt t) (S (t_cur t)) Inherit m (t_obs t) (t_w t)
   else if t_inst t then
-    mkT (t_inst t) (t_via t) (t_tgt t) (t_cur t) WCheck m (t_obs t)
+    mkT (t_inst t) (t_via t) (t_tgt t) (t_cur t) WCheck m (t_obs t) (t_w t)
   else
-    mkT (t_inst t) (t_via t) (t_tgt t) (t_cur t) Done m (Some (mkO m true false)).
+    mkT (t_inst t) (t_via t) (t_tgt t) (t_cur t) Done m (Some (mkO m true false)) (t_w t).
 
 (* which placeholder does the lookup at class c test: __dataclass_fields__ only
    for the use itself, __spec_class__ for parents and for the wrapper *)
@@ -193,6 +199,14 @@ Definition inherit_meta (ct : table) (cl : list cls) (c : nat) : meta :=
     | Some m => mkM (m_attrs m) (match c_key d with Some k => k | None => m_key m end) (c_frozen d)
     | None => mkM [] (match c_key d with Some k => k | None => None end) (c_frozen d)
     end
+  end.
+
+(* type.__getattribute__(cls, '__new__') along the MRO below class w: the nearest
+   class whose wrapper is still installed *)
+Fixpoint next_wrap (cl : list cls) (w : nat) : option nat :=
+  match w with
+  | O => None
+  | S p => if wrap (getc p cl) then Some p else next_wrap cl p
   end.
 
 Definition all_reg (cl : list cls) (c : nat) : bool :=
@@ -253,7 +267,7 @@ Definition tstep (g : bool) (ct : table) (i : nat) (cl : list cls) (l : option (
   | WCheck =>
     match t_seen t with
     | None => Some (cl, l, finish t (mkO None false true), EWCheck false)
-    | Some _ => Some (cl, l, set_ph t (WAcq c), EWCheck true)
+    | Some _ => Some (cl, l, set_ph t (WAcq (t_w t)), EWCheck true)
     end
   | WAcq w =>
     match acquire i l with
@@ -263,13 +277,14 @@ Definition tstep (g : bool) (ct : table) (i : nat) (cl : list cls) (l : option (
   | WRemove w =>
     let kw := getc w cl in
     Some (setc w (mkCls (pub kw) (pubf kw) (dict kw) (reg kw) false) cl, l, set_ph t (WRel w), EWRemove w (wrap kw))
-  | WRel w =>
-    (* the call continues in the inherited __new__: the parent's wrapper if still installed *)
-    let nxt := match w with
-               | S p => if wrap (getc p cl) then WAcq p else ObsInst
-               | O => ObsInst
-               end in
-    Some (cl, release l, set_ph t nxt, ERel (depth_of (release l)))
+  | WRel w => Some (cl, release l, set_ph t (WNext w), ERel (depth_of (release l)))
+  | WNext w =>
+    (* the call continues in the __new__ found below class w: a wrapper that is still
+       installed runs (and tests cls.__spec_class__ again), otherwise the instance is built *)
+    match next_wrap cl w with
+    | Some p => Some (cl, l, set_w_ph t p Test, EWNext w (Some p))
+    | None => Some (cl, l, set_ph t ObsInst, EWNext w None)
+    end
   | ObsInst => Some (cl, l, finish t (mkO (pub k0) (all_reg cl c) false), EObs)
   | Done => None
   end.
